@@ -190,7 +190,7 @@ func (w *c15World) filterResult1(f *c15Fn) int {
 			return -1
 		}
 	}
-	if w.otherAssigns(f, P, node) != "" {
+	if w.otherAssigns(f, P, node, l) != "" {
 		return -1
 	}
 	// every return is after the loop and returns P at the same position
@@ -324,6 +324,10 @@ func c15U1(r *core.R) {
 		ev := w.evalLoop(site)
 		if ev.filtered != nil {
 			r.OK(c, l.pos(), "ranges over %s: %s is verified to return exactly the updates not stamped after its time argument, in order, and is called with t", src(r.P.Fset, l.x), ev.filtered.name())
+			return
+		}
+		if w.countingLoop(ev) != nil && len(ev.unknown) == 0 && w.countedOrders(ev) == "all" {
+			r.OKTrivial(c, l.pos(), "pure counting pass over %s: its only effect is an increment executed for every update, whatever its Timestamp", src(r.P.Fset, l.x))
 			return
 		}
 		if len(ev.unknown) > 0 {
